@@ -366,6 +366,14 @@ func (vc *VC) dynamicCall(c *ssa.CallCommon, h *Heap, reach *string) []Term {
 	ms := vc.prog.typedModSet(vc, tc)
 	vc.declareModSet(ms)
 	vc.havocFor(h, ms)
+	// ghost call log
+	vc.callLogDecl()
+	nc := vc.get(h, "Gcalls_n")
+	vc.set(h, "Gcalls_fn", app("store", vc.get(h, "Gcalls_fn"), nc, fv.S))
+	if len(args) > 0 && args[0].Sort == SSlice {
+		vc.set(h, "Gcalls_args", app("store", vc.get(h, "Gcalls_args"), nc, args[0].S))
+	}
+	vc.set(h, "Gcalls_n", app("+", nc, "1"))
 	res := vc.resultTerms(sig, h, *reach, "dyn")
 	env.cur = h
 	for i, rt := range res {
